@@ -4,17 +4,43 @@ import json, os
 ROOT = os.path.dirname(os.path.abspath(__file__))
 ALL = ["C%02d" % i for i in range(1, 21)]
 
+TB = ("Trusted: Lean 4.33 kernel; axioms propext/Classical.choice/Quot.sound only (audited by #print axioms on every run, no native_decide/bv_decide/sorry); "
+      "the hand-written Lean model (lean/Muxide/Model) is tied to /repo only by the correspondence run, i.e. by differential testing whose strength is bounded by the generators; "
+      "Spec definitions (lean/Muxide/Spec) are the formal reading of the property; Rust harness, rustc, Python orchestrator. ")
+
 CLAIMED = {
+    "C02": dict(
+        text="Kernel-checked: generic box-tree round trip (any conforming tree of any depth serialises to bytes that parse back to exactly that tree, consuming exactly its bytes); "
+             "every moov/init/moof tree the model builds conforms to the container schema under the 32-bit size bound; the progressive file is sers[ftyp, moov|mdat, …] in layout order with "
+             "at most one mdat; explicit child-type skeletons of moov/trak/stbl, init and segment; table entry counts agree with the sample count (rle expands back, one chunk offset per sample). "
+             "Correspondence on the tree shape + counts of every emitted stream; Spec reader run on the implementation's bytes.",
+        note=TB + "Assumes moov/moof sizes < 2^32 (unchecked in the code; see C16).",
+        technique="Lean 4 proof (mutual induction over box trees, schema conformance by decide) + correspondence check",
+        ref="DESIGN.md section 5 C02"),
+    "C13": dict(
+        text="Kernel-checked for an ARBITRARY sink (any state, any response function: fail, short write, Ok(0), Interrupted): what the sink holds after a finish attempt is its previous content plus a "
+             "prefix of the fault-free file; the reply is an error iff some write_all failed; on success the sink holds the complete file and the reported byte count is its length; after any "
+             "finish attempt finalize hands no further chunk to the sink and every frame write is rejected. Induction over chunk list and write_all iterations, no bound. "
+             "Correspondence: every byte offset of representative files as failure point, every ErrorKind, short-write caps, interrupt sets and call-indexed scripts on the real library.",
+        note=TB + "std::io::Write::write_all is modelled from its documented loop; infinitely many Interrupted results (a hang in std) are outside the model (fuel).",
+        technique="Lean 4 proof (induction over chunks and the write_all loop, for all sinks) + fault-enumeration correspondence",
+        ref="DESIGN.md section 5 C13"),
     "C14": dict(
-        text="Kernel-checked theorems about the Lean model of the Annex B scanner/NAL iterator/length-prefix conversion and of adts_to_raw: "
-             "for every byte string the converted unit parses exactly to its end as 4-byte length-prefixed units equal to the model's units; "
-             "the model accepts an ADTS frame iff it is structurally valid by bit-field and stores exactly bytes [header, declared length). "
-             "The model is tied to /repo by a differential run (exhaustive small strings, constructive joins, ADTS sweeps) and the Spec oracle "
-             "is evaluated on the implementation's own output.",
-        note="Trusted: Lean kernel + propext/Classical.choice/Quot.sound; hand-written model (Muxide/Model/AnnexB.lean, Adts.lean) tied to the Rust "
-             "code only by the correspondence run; Spec.Framing definitions; harness. Assumes unit lengths < 2^32.",
-        technique="Lean 4 proof (induction over NAL lists, bit-field arithmetic by omega) + model/implementation correspondence check",
+        text="Kernel-checked: the structural start-code scanner equals the declarative least-index specification; the NAL iterator equals the declarative split; for every byte string shorter than 2^32 "
+             "the converted access unit parses exactly to its end as 4-byte length-prefixed units equal to the specification's units; constructive theorem for all joins of well-formed NAL units with "
+             "3/4-byte start codes, leading zeros and trailing zeros; linear step bound of the scanner; the model accepts an ADTS frame iff it is structurally valid by bit position and stores exactly "
+             "bytes [header, declared length). Correspondence: exhaustive small strings, constructive joins, ADTS sweeps; Spec oracle evaluated on the implementation's own output.",
+        note=TB + "Assumes slices <= isize::MAX and, for the length prefix, units < 2^32 bytes.",
+        technique="Lean 4 proof (fun_induction over the scanner, bit-field arithmetic by omega) + correspondence check",
         ref="DESIGN.md section 5 C14"),
+    "C18": dict(
+        text="Kernel-checked for EVERY day count: the model's year/month loops yield a valid civil date whose day number (calendar defined by summation) is the input, fuel always suffices; the "
+             "printed ISO-8601 text is the zero-padded decimal of those fields (20 bytes up to year 9999); every lower-case 3-letter language code round-trips through the 15-bit mdhd field, default "
+             "'und'; udta is absent iff neither title nor creation time is set and otherwise holds exactly one name item / one day item with the exact payload; metadata only affects the language "
+             "field and the trailing udta child of moov. Correspondence + oracle on the implementation's files (date text re-parsed and checked against the calendar definition), twin run without metadata.",
+        note=TB + "The u32 year counter and the running time of the year loop for astronomically large times belong to C12.",
+        technique="Lean 4 proof (loop invariant over the year/month loops, omega) + correspondence check",
+        ref="DESIGN.md section 5 C18"),
 }
 
 REASON_PENDING = "not claimed yet in this build session: the model and harness cover it, the property theorems and judge are still being written (see DESIGN.md section 9)"
